@@ -15,7 +15,7 @@ def tier(runs, budget_s, shrink_s=15, recheck=50, workers=16):
     return {"runs": runs, "budget_s": budget_s, "shrink_s": shrink_s, "recheck": recheck, "workers": workers}
 
 CHECKS = {}
-HOOK_COMMITS = ["3be429e"]
+HOOK_COMMITS = ["3be429e", "7e2608d"]
 
 def check(pid, **kw):
     kw.setdefault("level", "exploration")
@@ -88,10 +88,11 @@ engine_a("C09",
 )
 
 engine_a("C12",
-    scenarios=["C12.mesh"],
-    technique="deterministic whole-overlay simulation with transport duplication and an on-path attacker re-injecting exact copies of captured datagrams (direct and relayed); every delivery is observed (state digest before/after) and each datagram may be acted on at most once",
+    scenarios=["C12.mesh", "C12.gosched"],
+    scenario_weight={"C12.gosched": 12},
+    technique="deterministic whole-overlay simulation with transport duplication and an on-path attacker re-injecting exact copies of captured datagrams (direct and relayed); every delivery is observed (state digest before/after) and each datagram may be acted on at most once; plus a seeded goroutine scheduler (real goroutines parked at verif-tag yield points inside Decrypt/VerifyRelay, one released at a time from the tape) interleaving concurrent receivers of the same and neighbouring counters on one real tunnel",
     rule="one run = 2-4 node overlay (static/lighthouse/relay) for 10-35 s (thorough: up to 120 s) with high duplication, 40-200 attacker replays (1-3 copies each, from the original or a foreign source address), rehandshakes and bursts; distinct = distinct abstract trace hash; non-trivial = replays were injected, >10 distinct datagrams were acted on and >5 workload packets delivered",
-    level_text="Seeded search over delivery/replay histories: every delivery of an encrypted datagram is observed; a datagram (by content) may change the receiver's state, reach its tun or trigger a non-recv_error reply at most once per node, and every uniquely marked workload packet reaches the destination tun at most once. Goroutine-level races between the window check and update are the engine-B part. Evidence, not proof.",
+    level_text="Seeded search over delivery/replay histories: every delivery of an encrypted datagram is observed; a datagram (by content) may change the receiver's state, reach its tun or trigger a non-recv_error reply at most once per node, and every uniquely marked workload packet reaches the destination tun at most once. C12.gosched: 2-6 receiver goroutines submit genuine direct and relay-authenticated packets with overlapping counters (repeats, neighbours, window edge, jumps) to ConnectionState.Decrypt/VerifyRelay; every interleaving of the check / authenticate / update phases is a tape choice; a counter accepted twice (during or after the concurrent phase) or a still-in-window genuine counter never accepted is a violation. Evidence, not proof.",
 )
 
 engine_a("C14",
@@ -106,6 +107,19 @@ engine_a("C10",
     technique="deterministic whole-overlay simulation with an on-path attacker that stores every first handshake message and re-delivers it later from its original source; hostmap shape and responder output compared around every stage-1 delivery",
     rule="one run = 2-3 node static overlay (v1/v2, both curves, no preferred_ranges) for 15-45 s (thorough: up to 150 s) holding several tunnels per pair through forced rehandshakes from both sides, local and remote closes, partitions, plus 30-150 stage-1 replays and natural transport duplicates; distinct = distinct abstract trace hash; non-trivial = the run contained both a replay of a still-held tunnel's first message and a first message older than the existing responder-side primary",
     level_text="Seeded search over handshake/replay histories: for every first handshake message delivered (replayed by the attacker, duplicated by the network, or genuine) the responder's pre-state decides the case. If it still holds the tunnel created from exactly those bytes, the set of tunnels and every address's ordered tunnel list must be unchanged and the only output allowed is the byte-identical original reply to the source. If its primary for that peer was accepted as responder and reports a time >= the message's (learned when the message first created a tunnel), nothing may be created or replaced. Replays against initiator-side primaries are not judged (the statement excludes them). Evidence, not proof. Limit: peer-reported times come from the single bubble clock.",
+)
+
+check("C13",
+    pkg="nebula", engine="B-gosched", scenarios=["C13.gosched", "C13.gosched.fips"],
+    scenario_env={"C13.gosched.fips": {"GODEBUG": "fips140=on"}},
+    quick=tier(40000, 30), thorough=tier(1500000, 900, shrink_s=60),
+    technique="deterministic simulation of goroutine interleavings: real sender goroutines on one real tunnel are parked at verif-tag yield/lock points (counter reserved, before seal, before writeLock) and released one at a time by a seeded scheduler; a recorder in the data-plane cipher's seat sees every (key, nonce) pair in call order; run in normal and FIPS (increasing-nonce AEAD, writeLock) mode",
+    rule="one run = one real tunnel (built by a real handshake in the whole-overlay simulator) whose send counter is preset (as left by the handshake / mid-range / 0-14 below the ceiling / at or just above the ceiling), then 2-8 goroutines each doing 1-5 sends drawn from data (sendInsideEncrypt), test and close (sendNoMetrics), relay (prepareSendVia); distinct = distinct interleaving (sequence of task@site scheduling decisions); non-trivial = more than two sends and more scheduling steps than tasks",
+    level_text="Seeded search over sender interleavings: among the encryptions the cipher accepted no counter occurs twice, none is at or beyond the exhaustion ceiling, all are above the counters consumed before the concurrent phase; every emitted datagram carries a counter the cipher was handed and opens at the peer with exactly that nonce; successful encryptions and emitted datagrams agree in number; in FIPS mode counters reach the cipher in strictly increasing order (the real TLS1.3 AEAD would also panic, which is caught as a violation) and a lock-wait cycle is a detected deadlock. Evidence, not proof.",
+    level_note="Trusted: the scheduler (exactly one task runs at a time; hooks only at the tagged sites, so code between two sites is atomic in this model), the recorder, and the tunnel setup via engine A. Preemption inside EncryptDanger or between sites that carry no hook is not explored; the atomic Add itself is a single hardware operation.",
+    real=["ConnectionState.NextMessageCounter / messageCounter", "Interface.sendInsideEncrypt, sendNoMetrics, prepareSendVia (real, on a real tunnel)", "noiseutil AES-GCM, ChaCha20-Poly1305 and FIPS TLS1.3-GCM cipher states incl. the ceiling check"],
+    stub=["Go scheduler (replaced at the tagged sites by the seeded scheduler)", "UDP socket (simConn)", "relay table entry for the relay sends (constructed by the harness)"],
+    assumptions=["interleaving granularity = the tagged yield sites"],
 )
 
 engine_a("C31",
